@@ -181,7 +181,7 @@ class SMTwist(SMUserList):
             >>> S = Twist3([1,2,3,4,5,6])
             >>> S.unit()
         """
-        return Twist3(base.unitvec(self.S))
+        return Twist3(base.unittwist(self.S))
 
     def inv(self):
         """
@@ -1381,12 +1381,7 @@ class Twist2(SMTwist):
         - ``S.unit()`` is a Twist3 object representing a unit twist aligned with the
         Twist ``S``.
         """
-        if base.iszerovec(self.w):
-            # rotational twist
-            return Twist2(self.S / base.norm(S.w))
-        else:
-            # prismatic twist
-            return Twist2(base.unitvec(self.v), [0, 0, 0])
+        return Twist2(base.unittwist2(self.S))
 
     @property
     def ad(self):
